@@ -209,7 +209,7 @@ fn check_against(h: &H, t_ids: &[u128], t_in_model: bool, evals: &mut u64) -> Ve
             let db = h.db().clone();
             let uid = Uuid::from_u128(*id);
             let part = partition_of(0);
-            match h.rt.block_on(async move { tokio::time::timeout(Duration::from_secs(5), db.read_event(part, uid)).await }) {
+            match h.rt.block_on(async move { tokio::time::timeout(Duration::from_secs(40), db.read_event(part, uid)).await }) {
                 Ok(Ok(None)) => {}
                 Ok(Ok(Some(rec))) => {
                     if rec.event_id.as_u128() == *id {
